@@ -2275,6 +2275,16 @@ def mutants(corpus: Corpus):
             # build: <warning assignment>; <loop with the assignment replaced by pass>
             loop_src = segment(dm.src, lp_).replace(segment(dm.src, wst), "pass", 1)
             out.append(Mutant("c20-filter-shared-message-hoisted", "C20.R1", dm.rel, splice(dm.src, lp_, segment(dm.src, wst) + "\n" + indent_of(parse, lp_) + loop_src), expect="one-message-per-node"))
+        # 3f. the message is created lazily once (`if warning is None: warning = ...`) and reused for later nodes
+        fpm = _filter_parts(parse, flt)
+        if wst is not None and (fpm["outer"] or fpm["loop"]) is not None:
+            top = fpm["outer"] or fpm["loop"]
+            wname = unparse(wst.targets[0])
+            # two edits, later position first
+            srcm = splice(dm.src, wst, f"if {wname} is None:\n{indent_of(parse, wst)}    " + segment(dm.src, wst))
+            top_seg = segment(dm.src, top)
+            srcm = srcm.replace(top_seg.split("\n", 1)[0], f"{wname} = None\n{indent_of(parse, top)}" + top_seg.split("\n", 1)[0], 1)
+            out.append(Mutant("c20-filter-shared-message-memoised", "C20.R1", dm.rel, srcm, expect="one-message-per-node"))
         # 4. extra condition
         out.append(Mutant("c20-filter-extra-condition", "C20.R1", dm.rel, splice(dm.src, flt.test, segment(dm.src, flt.test) + " and not config.gfm_only"), expect="raw filter|test"))
         loop = find_node(parse, lambda n: isinstance(n, ast.For) and "nodes.raw" in unparse(n.iter))
